@@ -42,6 +42,11 @@ type RpcCall struct {
 	CancelUs   int    `json:"cancel_us,omitempty"` // the caller cancels its context after this long (0: never)
 	Skip       bool   `json:"skip,omitempty"`      // channel kind: the handler returns SkipResponse (no response message)
 	Probe      bool   `json:"probe,omitempty"`     // recovery probe: issued alone after everything else has ended (fault scenarios)
+	// OpCtx: channel kind: every Send / SendEnd / Receive / Response of the caller runs under a deadline of
+	// its own (1: a context the caller cancels after OpUs, 2: a timeout context); an operation that ends
+	// by that deadline has done nothing and is repeated.
+	OpCtx int `json:"op_ctx,omitempty"`
+	OpUs  int `json:"op_us,omitempty"`
 }
 
 type RpcPlan struct {
@@ -112,6 +117,16 @@ func genRpcPlan(g *simrt.Rng, tier string) *RpcPlan {
 				c.DelayUs = c.CancelUs * 2 // make sure the cancellation lands while the call waits
 			}
 		}
+		if c.Kind == "channel" && c.CancelUs == 0 && g.Bool(0.15) {
+			c.OpCtx = 1 + g.IntN(2)
+			c.OpUs = simrt.Pick(g, 1, 50, 2000, 40000)
+			if c.Code == "cancelled" || c.Code == "timeout" {
+				c.Code = "unavailable" // a handler status the caller could not tell from its own deadline
+			}
+			if g.Bool(0.5) && c.DelayUs < c.OpUs {
+				c.DelayUs = c.OpUs * 3 // the handler is still busy when the first deadlines expire
+			}
+		}
 		p.Calls = append(p.Calls, c)
 	}
 	return p
@@ -152,6 +167,7 @@ type rpcRun struct {
 	errsAtTeardown, panicsAtTeardown int
 	tornDown                         bool
 	stranded                         int
+	opExpired                        int // caller operations repeated after their own deadline
 	extra                            func(r *rpcRun, clients []rpc.Client, srv rpc.Server)
 	tap                              func(conn, dir int, data []byte)
 	postNet                          func(net *simnet.Net)
@@ -396,9 +412,43 @@ func (r *rpcRun) clientCall(id int, cl rpc.Client) {
 		}
 		s.cliOpened = true
 		var g group
+		// op runs one operation of the caller under its per-operation deadline, repeating it while it
+		// ends by that deadline alone
+		op := func(what string, f func(ctx async.Context) status.Status) status.Status {
+			if c.OpCtx == 0 {
+				return f(ctx)
+			}
+			us := c.OpUs
+			for {
+				d := time.Duration(us) * time.Microsecond
+				var own async.Context
+				if c.OpCtx == 1 {
+					cc := async.NextContext(ctx)
+					hGo(fmt.Sprintf("call%d-%s-cancel", id, what), func() {
+						hSleep(d)
+						cc.Cancel()
+					})
+					own = cc
+				} else {
+					own = async.NextTimeoutContext(ctx, d)
+				}
+				st := f(own)
+				expired := own.Done()
+				own.Free()
+				if !st.OK() && expired && !ctx.Done() && (st.Code == status.CodeCancelled || st.Code == status.CodeTimeout) {
+					r.opExpired++
+					if us < 200_000 {
+						us = us*2 + 1
+					}
+					continue
+				}
+				return st
+			}
+		}
 		g.goTask(fmt.Sprintf("call%d-csend", id), func() {
 			for k, size := range c.CliStream {
-				st := ch.Send(ctx, r.streamBytes(id, dirCS, k, size))
+				b := r.streamBytes(id, dirCS, k, size)
+				st := op("send", func(ctx async.Context) status.Status { return ch.Send(ctx, b) })
 				if !st.OK() {
 					simrt.Logf("call%d client stream #%d -> %s", id, k, stName(st))
 					// the server may respond early and close the call: later sends then fail by design
@@ -406,13 +456,14 @@ func (r *rpcRun) clientCall(id int, cl rpc.Client) {
 				}
 			}
 			if c.CliEnd {
-				ch.SendEnd(ctx)
+				op("sendend", func(ctx async.Context) status.Status { return ch.SendEnd(ctx) })
 			}
 		})
 		cut := false
 		if !c.SkipRecv {
 			for {
-				msg, st := ch.Receive(ctx)
+				var msg []byte
+				st := op("recv", func(ctx async.Context) (st status.Status) { msg, st = ch.Receive(ctx); return st })
 				if !st.OK() {
 					if st.Code != status.CodeEnd {
 						cut = true // the stream did not reach its end marker (cancelled / failed call)
@@ -428,7 +479,8 @@ func (r *rpcRun) clientCall(id int, cl rpc.Client) {
 				r.fail("C04-stream-incomplete", "call %d: the caller read the stream to its end and got %d of %d messages before the end marker", id, s.cliGot, len(c.SrvStream))
 			}
 		}
-		val, st := ch.Response(ctx)
+		var val spec.Value
+		st = op("response", func(ctx async.Context) (st status.Status) { val, st = ch.Response(ctx); return st })
 		r.checkResult(id, val, st)
 		g.wait("rpc.client.join")
 		ch.Free()
@@ -461,6 +513,7 @@ func runRpcX(t *testing.T, seed uint64, p *RpcPlan, o RunOpts, setup func(r *rpc
 		rep.addNet(r.net)
 	}
 	rep.count("calls", int64(len(p.Calls)))
+	rep.count("probe:caller_operations_repeated_after_own_deadline", int64(r.opExpired))
 	for _, c := range p.Calls {
 		rep.count("kind:"+c.Kind, 1)
 		if c.Panic {
@@ -469,6 +522,16 @@ func runRpcX(t *testing.T, seed uint64, p *RpcPlan, o RunOpts, setup func(r *rpc
 		if c.Code != "ok" {
 			rep.count("probe:non_ok_statuses", 1)
 		}
+	}
+	if rep.Inconclusive == "sim-cap" && len(rep.Violations) == 0 && !p.Faulty && r.net != nil && res.SimTime-r.net.LastIO > 10*time.Minute {
+		// callers with deadlines of their own keep the clock running: a stall is no deadlock for the scheduler
+		rep.Inconclusive = ""
+		if r.stranded > 0 {
+			rep.violate("F1-bytequeue-lost-wakeup", "stall with %d byte queue(s) holding unread data in a later block while the reader is parked without a wake-up token; live tasks: %v", r.stranded, res.Blocked)
+		} else {
+			rep.violate("C04-deadlock", "calls did not complete: the last byte moved at %v and callers kept repeating their operations until %v; live tasks: %v", r.net.LastIO, res.SimTime, res.Blocked)
+		}
+		return rep
 	}
 	if rep.Inconclusive != "" || len(rep.Violations) > 0 {
 		return rep
